@@ -32,6 +32,7 @@ type c13Decl struct {
 	Script   string
 	Marker   string
 	Adjacent bool
+	DocOpen  bool // documentation not asserted (an alias without a comment of its own may show the comment of what it names)
 	XLine    int // line / column of a use in the companion file (another document); -1 = none
 	XCol     int
 	UseLines []int // lines where the name is used (0-based)
@@ -46,7 +47,8 @@ func c13GenFile(r *Rng, idx int) (string, []c13Decl) {
 	scripts := []string{"ascii", "latin1", "cyrillic", "greek", "cjk", "hangul", "astral", "mixed"}
 	markers := []string{"-- ", "--- ", "-- * ", "--", "--  "}
 	places := []string{"trailing", "block1", "block2", "block3", "both", "none", "detached"}
-	kinds := []string{"local-number", "local-string", "local-table", "global", "global-function", "local-function", "member-dot", "member-colon"}
+	kinds := []string{"local-number", "local-string", "local-table", "global", "global-function", "local-function", "member-dot", "member-colon",
+		"local-alias", "global-alias", "member-alias"}
 	n := r.Range(4, 9)
 	lines = append(lines, fmt.Sprintf("local host%d = {}", idx))
 	for i := 0; i < n; i++ {
@@ -104,6 +106,25 @@ func c13GenFile(r *Rng, idx int) (string, []c13Decl) {
 			d.Local = true
 			d.Params = []string{fmt.Sprintf("pa%d", i), fmt.Sprintf("pb%d", i), fmt.Sprintf("pc%d", i)}[:r.Range(0, 3)]
 			stmt = fmt.Sprintf("local function %s(%s) return 1 end", d.Name, strings.Join(d.Params, ", "))
+		case "local-alias", "global-alias", "member-alias":
+			// the value is a reference to an earlier declaration (which has a comment of its own or not)
+			ref := fmt.Sprintf("host%d", idx)
+			if len(decls) > 0 {
+				e := decls[r.Intn(len(decls))]
+				ref = e.Name
+				if strings.HasPrefix(e.Kind, "member-") {
+					ref = fmt.Sprintf("host%d.%s", idx, e.Name)
+				}
+			}
+			switch d.Kind {
+			case "local-alias":
+				d.Local = true
+				stmt = fmt.Sprintf("local %s = %s", d.Name, ref)
+			case "global-alias":
+				stmt = fmt.Sprintf("%s = %s", d.Name, ref)
+			default:
+				stmt = fmt.Sprintf("host%d.%s = %s", idx, d.Name, ref)
+			}
 		case "member-dot":
 			d.Params = []string{fmt.Sprintf("pa%d", i)}
 			stmt = fmt.Sprintf("function host%d.%s(%s) return 1 end", idx, d.Name, strings.Join(d.Params, ", "))
@@ -125,6 +146,9 @@ func c13GenFile(r *Rng, idx int) (string, []c13Decl) {
 		default:
 			d.Comment = block
 		}
+		if strings.HasSuffix(d.Kind, "-alias") && d.Comment == nil {
+			d.DocOpen = true
+		}
 		decls = append(decls, d)
 	}
 	lines = append(lines, "")
@@ -133,6 +157,8 @@ func c13GenFile(r *Rng, idx int) (string, []c13Decl) {
 		d := &decls[i]
 		var use string
 		switch d.Kind {
+		case "member-alias":
+			use = fmt.Sprintf("print(host%d.%s)", idx, d.Name)
 		case "member-dot":
 			use = fmt.Sprintf("print(host%d.%s(1))", idx, d.Name)
 		case "member-colon":
@@ -204,7 +230,7 @@ func runC13(c *Ctx) {
 			}
 			for di := range ds {
 				ds[di].XLine = -1
-				if ds[di].Kind == "global" || ds[di].Kind == "global-function" {
+				if ds[di].Kind == "global" || ds[di].Kind == "global-function" || ds[di].Kind == "global-alias" {
 					at := r.Intn(len(xl) + 1)
 					use := fmt.Sprintf("print(%s) -- companion use %d", ds[di].Name, di)
 					xl = append(xl[:at], append([]string{use}, xl[at:]...)...)
@@ -301,6 +327,10 @@ func runC13(c *Ctx) {
 					var want []string
 					for _, l := range d.Comment {
 						want = append(want, c13NormLines(l)...)
+					}
+					if d.DocOpen {
+						c.Count("dont_care_alias_without_own_comment", 1)
+						continue
 					}
 					c.Count("documentation_compared", 1)
 					if strings.Join(got, "\n") != strings.Join(want, "\n") {
